@@ -55,7 +55,7 @@ func addHeaders(r *http.Request, cfg config.Proxy, stripPath string) error {
 	// set the X-Forwarded-For header for websocket
 	// connections since they aren't handled by the
 	// http proxy which sets it.
-	ws := r.Header.Get("Upgrade") == "websocket"
+	ws := strings.EqualFold(r.Header.Get("Upgrade"), "websocket")
 	if ws {
 		clientIP := remoteIP
 		// If we aren't the first proxy retain prior
@@ -206,7 +206,7 @@ func scheme(r *http.Request) string {
 		return p[1]
 	}
 
-	ws := r.Header.Get("Upgrade") == "websocket"
+	ws := strings.EqualFold(r.Header.Get("Upgrade"), "websocket")
 	switch {
 	case ws && r.TLS != nil:
 		return "wss"
